@@ -1,9 +1,56 @@
 /-
-  C01 — readers decode every well-formed treebank file faithfully (theorems being added)
+  C01 — readers decode every well-formed treebank file faithfully
 -/
 import TT.Spec.Formats
 import TT.IO.Read
+import TT.Lemmas.Read
+import TT.Lemmas.GramOut
 namespace TT.Props.C01
 open TT TT.Tree TT.Spec
+open TT.Lemmas.Read
+
+/-! ### lexer -/
+
+theorem lex_classes (s : Str) : ∀ tc ∈ bracketLex s,
+    (tc.2 = .lrb → tc.1 = ['(']) ∧ (tc.2 = .rrb → tc.1 = [')']) ∧
+    (tc.2 = .ws → tc.1 ≠ [] ∧ ∀ c ∈ tc.1, pyIsSpace c = true) ∧
+    (tc.2 = .token → tc.1 ≠ [] ∧ ∀ c ∈ tc.1, pyIsSpace c = false ∧ c ≠ '(' ∧ c ≠ ')') :=
+  fun tc h => lexAux_classes s [] [] (by simp) (by simp) tc h
+
+example : bracketLex "(S (A a)  b".toList =
+    [(['('], .lrb), (['S'], .token), ([' '], .ws), (['('], .lrb), (['A'], .token), ([' '], .ws), (['a'], .token),
+     ([')'], .rrb), ([' ', ' '], .ws)] := by decide
+
+/-- the lexer loses nothing but a trailing unterminated token / whitespace run -/
+theorem lex_concat (s : Str) : ∃ tail, ((bracketLex s).map (·.1)).flatten ++ tail = s ∧ ∀ c ∈ tail, c ≠ '(' ∧ c ≠ ')' := by
+  obtain ⟨tail, h1, h2⟩ := lexAux_concat s [] [] (.inl rfl) (by simp) (by simp)
+  exact ⟨tail, by simpa [bracketLex] using h1, h2⟩
+
+/-! ### automaton -/
+
+-- the automaton never yields from inside a group and rejects an unterminated group
+theorem brLoop_open_group_rejected (o : InOpts) (fuel : Nat) (st : BrState) (h : st.level ≠ 0) :
+    brLoop o (fuel + 1) st [] = .error .valueError := by
+  simp [brLoop, h]
+
+example : readBrackets {} "(S (A a)".toList = .error .valueError := by rfl
+
+/-- whitespace between tokens is irrelevant except between POS and word (state 2 -> 3) -/
+theorem brStep_ws (o : InOpts) (st : BrState) (w : Str) (h : st.state ≠ 2) : brStep o st (w, .ws) = .ok (st, none) := by
+  simp [brStep, h]
+
+/-- the same reader option has the same effect in every format: one function of the raw label -/
+theorem gf_split_uniform (sep raw : Str) :
+    (gfSplitLabel sep raw).2 = (parseLabel sep raw).gf ∧
+    (gfSplitLabel sep raw).1 = (parseLabel sep raw).label ++ (if (parseLabel sep raw).gapindex.isEmpty then [] else '=' :: (parseLabel sep raw).gapindex) ++
+       (if (parseLabel sep raw).coindex.isEmpty then [] else '-' :: (parseLabel sep raw).coindex) ++ (if (parseLabel sep raw).headmarker then ['\''] else []) :=
+  ⟨rfl, rfl⟩
+
+/-- sentence ids: the k-th tree delivered by the bracket reader has id firstId + k -/
+theorem readBrackets_sids (o : InOpts) (text : Str) (r : List (Nat × Tree)) (h : readBrackets o text = .ok r) :
+    r.map (·.1) = List.range' (o.firstId.getD 1) r.length :=
+  brLoop_sids o (o.firstId.getD 1) _ _ _ r ⟨by simp, by simp⟩ h
+
+example : (readBrackets { firstId := some 7 } "(A a)(B b) (C (D d))".toList).map (·.map (·.1)) = .ok [7, 8, 9] := by rfl
 
 end TT.Props.C01
